@@ -420,8 +420,17 @@ def analyse(rep: Report) -> None:
     rep.rule('R09.2', 'patch is rendered under the option vector of the manifest', floor=4)
     rep.rule('R09.3', 'originalPublishTime and patch capability agree between the two endpoints', floor=5)
     rep.rule('R09.4', 'loop wrap re-establishes (mod_segment = 1, seg_start_tc = origin_time)', floor=1)
+    rep.rule('R09.5', 'a segment is listed with the same start and duration whatever the window (S runs: rule of C06)', floor=1)
     idx = Index(rep.repo)
     r09_1(rep)
     r09_2(rep, idx)
     r09_3(rep)
     r09_4(rep)
+    from ..core import lift
+    from . import c06 as _c06
+
+    def _run(sub):
+        sub.rule('R06.11', 'an S run is extended only when the listed duration equals the duration of the run', floor=0)
+        _c06.r06_11(sub)
+    lift(rep, 'R09.5', 'C06', _run, ('R06.11',), 'dashlive/mpeg/dash/representation.py::Representation.generateSegmentTimeline',
+         'S runs are extended on the listed duration')
